@@ -192,6 +192,25 @@ def run_case(case, ch):
             q = Queue(ds.DiskStorage('/q/env', '/q/meta', '/q/tmp'), relay=None)
             add_policies(q, chain)
             obs['fs'] = fs
+        elif queue_kind == 'proxy-real':
+            # ProxyQueue in front of a real relay class (SMTP, LMTP, HTTP) whose next hop is scripted; the truth is what the
+            # next hop accepted
+            from worlds.queue_world import run_real_relay
+
+            class RealRelay(Relay):
+                def attempt(self_, envelope, attempts):
+                    rc = list(envelope.recipients)
+                    log['started'].append(tuple(rc))
+                    behaviour = plan['behaviour']
+                    accepted, outcome = run_real_relay(w, plan['relay_kind'], behaviour, envelope, attempts, rc)
+                    if set(rc) <= set(accepted):
+                        log['completed'].append(tuple(rc))
+                    else:
+                        log['failed'].append(tuple(r for r in rc if r not in accepted))
+                    if outcome[0] == 'raised':
+                        raise outcome[1]
+                    return outcome[1]
+            q = ProxyQueue(RealRelay())
         elif queue_kind == 'proxy-pipe':
             # ProxyQueue in front of the real PipeRelay; the delivery program's fate is scripted
             import slimta.relay.pipe as pipe
@@ -355,7 +374,7 @@ def judge(case, obs):
         if snap['pending']:
             out.append((dict(base, kind='acknowledged-before-write-completed'), desc))
         if snap['failed']:
-            fk = 'pipe-relay' if case['queue'] == 'proxy-pipe' else 'per-recipient-result' if case['queue'] == 'proxy' and str(case['plan'].get('relay', '')).startswith('map') else \
+            fk = 'pipe-relay' if case['queue'] == 'proxy-pipe' else ('real-' + case['plan']['relay_kind']) if case['queue'] == 'proxy-real' else 'per-recipient-result' if case['queue'] == 'proxy' and str(case['plan'].get('relay', '')).startswith('map') else \
                 ('failure-not-first' if case['queue'] == 'queue' and min(int(k) for k in case['plan']) > 0 else 'failure')
             out.append((dict(base, kind='acknowledged-although-a-write-failed', which=fk), desc))
         elif sorted(want) != done:
@@ -399,6 +418,14 @@ def cases(tier):
         for chain in ('none', 'split', 'date+domainsplit'):
             for n in (1, 2):
                 yield {'edge': edge, 'queue': 'queue-disk', 'chain': chain, 'n': n, 'plan': {}}
+        from worlds.queue_world import QueueWorld
+        for rk in ('smtp', 'lmtp', 'http'):
+            for behaviour in QueueWorld.REAL_MENUS[rk]:
+                if isinstance(behaviour, dict) and any(v == 'stall' for v in behaviour.values()):
+                    continue            # stalls are C14's subject; here every attempt ends
+                if behaviour == '301+250':
+                    continue            # an origin that contradicts itself (failure status, success reply header): not defined
+                yield {'edge': edge, 'queue': 'proxy-real', 'chain': 'none', 'n': 2, 'plan': {'relay_kind': rk, 'behaviour': behaviour}}
 
 
 def configs(tier, seed):
